@@ -71,7 +71,9 @@ def params(tier):
         two = [('repr_onehot','finalize'),('flatten','repr_onehot'),('sparse_a','dense_lookup'),('noise_a','finalize'),('batch','finalize'),('repr_string','sparse_a'),('finalize','batch'),('sparse_a','noise_a'),('sparse_a','repr_onehot'),('sparse_ca','finalize'),('batch','sparse_a')]
     else:
         two = [(a,b) for a in FILTERS for b in FILTERS if a != b]
-    return [dict(chain=list(c), ak=k) for c in chains+two for k in ACTION_KINDS]
+    # three interactions whose first two action sets are equal and whose third differs (order and size): filters that look at the first two only
+    three = [dict(chain=[f], ak=k, pat='AAB') for f in ('repr_onehot','repr_tuple','repr_string','repr_act_only','finalize','flatten','sparse_a','dense_lookup','noise_a') for k in ('cat','densecat','str','sparse')]
+    return [dict(chain=list(c), ak=k) for c in chains+two for k in ACTION_KINDS] + three
 
 def _classify(v):
     info = v.get('info',{})
@@ -94,16 +96,17 @@ def unbatch(inter):
 @obligation('C10','rewards_follow_actions', bounds={'quick':"2 interactions (equal action sets, or the first one reversed with one action fewer) x 3 actions of 10 kinds (incl. header-carrying dense rows, lists nesting a categorical, sparse row views one of which is a subset of another); optional IGL feedbacks as list or callable; rewards as list / BinaryReward(value k/4) / DiscreteReward / callable / L1Reward (numeric actions); optional logged action+reward+probability; every single filter of 13 configurations and 11 two-filter chains",
                                                    'thorough':"all ordered pairs of the 13 filter configurations"},
             functions=FUNCS, params=params, classify=_classify, budget={'quick':80,'thorough':1500})
-def rewards_follow_actions(sym, chain, ak):
+def rewards_follow_actions(sym, chain, ak, pat=None):
     rk = sym.choice('rk', ['list','binary','discrete','lambda'] + (['l1'] if ak == 'int' else []))
-    same = sym.flag('same_actions')
+    same = sym.flag('same_actions') if not pat else True
+    N = 3 if pat else 2
     logged = sym.flag('logged')
     fbk = sym.choice('feedbacks', ['none','list','callable'])        # IGL feedback next to the rewards
     sym.note(chain='>'.join(chain), ak=ak, rk=rk)
     base = ACTION_KINDS[ak]()
     inter, orig = [], []
-    for i in range(2):
-        acts = list(base) if (same or i == 1) else list(reversed(base))[:2]      # first interaction: other order and one action fewer
+    for i in range(N):
+        acts = (list(base) if i < 2 else list(reversed(base))[:2]) if pat else list(base) if (same or i == 1) else list(reversed(base))[:2]      # first interaction: other order and one action fewer (pattern AAB: the third)
         vals = [sym.real(f'r{i}_{k}', -1, 2, denom=4) for k in range(len(acts))]
         d = {'context': (Categorical('u',LEVELS), 1.5) if i == 0 else (Categorical('w',LEVELS), 2.5), 'actions': acts, 'rewards': make_rewards(sym, rk, acts, vals, i)}
         if logged:
@@ -118,7 +121,7 @@ def rewards_follow_actions(sym, chain, ak):
     for f in chain:
         out = list(FILTERS[f]().filter(iter(out)))
     out = unbatch(out)
-    sym.check(len(out) == 2, f"count: {len(out)} interactions after the chain")
+    sym.check(len(out) == N, f"count: {len(out)} interactions after the chain")
     for i,(o,g) in enumerate(zip(out,orig)):
         acts = o['actions']
         sym.check(len(acts) == len(g['actions']), f"nactions: interaction {i} has {len(acts)} actions after the chain, had {len(g['actions'])}")
@@ -161,3 +164,32 @@ def shortcuts(sym, sc, ak):
             try: got = call(o['rewards'], o['actions'], k)
             except Exception as e: sym.fail(f"raise: reward look-up raised {type(e).__name__}: {e}")
             sym.check(got == vals[k], f"reward: action {k} earns a different reward after Environments.{sc}")
+
+
+@obligation('C10','shortcuts_two_envs', bounds="Environments.dense(4,'lookup')/sparse/repr/noise shortcuts over TWO environments whose sparse (or categorical) actions use different feature names, each of which alone fits the 4 columns; both environments read in either order, rewards given as functions: every action of every environment still earns its own reward",
+            functions=FUNCS, params=lambda tier: [dict(sc=s, order=o, na=na) for s in ('dense','sparse','repr','noise') for o in ((0,1),(1,0),(0,1,0)) for na in ((1,2,3) if s == 'dense' else (3,))], classify=_classify)
+def shortcuts_two_envs(sym, sc, order, na=3):
+    sym.note(chain=f"Environments.{sc} x2", ak='sparse', rk='lambda')
+    sets = [[{'a':1},{'b':2},{'c':3}][:na], [{'d':1},{'e':2},{'f':3},{'g':1}]] if sc != 'repr' else [[Categorical(l,LEVELS) for l in LEVELS], [Categorical(l,['p','q']) for l in ['q','p']]]
+    data = []
+    for e,acts in enumerate(sets):
+        inter = []
+        for i in range(2):
+            vals = [sym.real(f'r{e}_{i}_{k}', -1, 2, denom=4) for k in range(len(acts))]
+            inter.append(({'context': 1.5, 'actions': list(acts), 'rewards': make_rewards(sym,'lambda',acts,vals,i)}, vals))
+        data.append(inter)
+    class E:
+        def __init__(self, inter): self.inter = inter; self.params = {}
+        def read(self): return iter([dict(d) for d,_ in self.inter])
+    envs = Environments(E(data[0]), E(data[1]))
+    envs = {'repr': lambda e: e.repr('onehot','onehot'), 'sparse': lambda e: e.sparse(True,True),
+            'dense': lambda e: e.dense(4,'lookup',False,True), 'noise': lambda e: e.noise(action=('i',1,1))}[sc](envs)
+    for e in order:
+        out = list(envs._envs[e].read())
+        sym.check(len(out) == 2, "count")
+        for o,(_,vals) in zip(out, data[e]):
+            if sc == 'dense': sym.check(len(set(map(tuple,o['actions']))) == len(vals), f"distinct: environment {e}: distinct actions collapsed to {o['actions']!r} by Environments.{sc}")
+            for k in range(len(vals)):
+                try: got = call(o['rewards'], o['actions'], k)
+                except Exception as ex: sym.fail(f"raise: reward look-up raised {type(ex).__name__}: {ex}")
+                sym.check(got == vals[k], f"reward: environment {e}, action {k} earns a different reward after Environments.{sc} (read order {order})")
